@@ -456,13 +456,64 @@ pub fn check(thorough: bool, _seed: u64) -> Check {
         classes: vec![],
         bounds: json!({"types": "every type implementing the approx traits with at least two numbers", "pairs": "position i (every) holds the same value from {+inf,-inf,NaN,MAX,0,-0.0,5e-324} in both operands; position j != i (every) is equal, perturbed inside or perturbed outside the 1e-3 tolerances", "tolerances": "every epsilon x max_relative"}),
     };
+    // tolerances below the resolution of the numbers: a max_relative under f64::EPSILON and a subnormal epsilon are still
+    // tolerances (one-ulp neighbours with a high mantissa are within 1.2e-16 relative; 0 and 5e-324 are within 1e-320)
+    let cs6 = cs.clone();
+    let tiny = Phase {
+        name: "tolerances-below-the-resolution",
+        units: n,
+        split: 1,
+        body: Box::new(move |unit, cx| {
+            let c = &cs6[unit];
+            if c.n == 0 {
+                return Ok(());
+            }
+            const AV: [f64; 9] = [1.9, 1.0, -1.75, 1234.5678, 0.0, -0.0, 3e-310, 2.5e-308, -7.99];
+            const TEPS: [f64; 8] = [0.0, 5e-324, 1e-320, 1e-310, f64::MIN_POSITIVE, 1e-300, 1e-16, 4.5e-16];
+            const TREL: [f64; 8] = [0.0, 5e-324, 1.2e-16, 1.6e-16, 2.1e-16, f64::EPSILON, 4e-16, 1e-15];
+            let lane = cx.choose(c.n);
+            let av = AV[cx.choose(AV.len())];
+            let mut bv = av;
+            let k = 1 + cx.choose(3);
+            let up = cx.flag();
+            for _ in 0..k {
+                bv = if up { exact::succ(bv) } else { exact::pred(bv) };
+            }
+            let eps = TEPS[cx.choose(TEPS.len())];
+            let rel = TREL[cx.choose(TREL.len())];
+            let mut a = base(c.n);
+            let mut b = a.clone();
+            a[lane] = av;
+            b[lane] = bv;
+            if cx.flag() {
+                std::mem::swap(&mut a, &mut b);
+            }
+            cx.nontrivial();
+            cx.evals(5);
+            if cx.sampling() {
+                cx.sample(json!({"type": c.ty, "position": lane, "a": fj(a[lane]), "b": fj(b[lane]), "epsilon": fj(eps), "max_relative": fj(rel)}));
+            }
+            match (c.run)(&a, &b, eps, rel) {
+                Ok((abs, re)) => {
+                    cx.class(abs as usize);
+                    cx.class(2 + re as usize);
+                    Ok(())
+                }
+                Err((what, d)) => Err(Fail::new(what, json!({"position": lane, "a[position]": fj(a[lane]), "b[position]": fj(b[lane]), "epsilon": fj(eps), "max_relative": fj(rel), "observation": d}))),
+            }
+        }),
+        classes: vec![("abs_diff_eq_false", true), ("abs_diff_eq_true", true), ("relative_eq_false", true), ("relative_eq_true", true)],
+        bounds: json!({"types": "every type implementing the approx traits", "position": "every number position in turn",
+            "pairs": "a in {1.9,1,-1.75,1234.5678,0,-0.0,3e-310,2.5e-308,-7.99}; b = a moved 1, 2 or 3 ulps up or down; both argument orders",
+            "tolerances": "epsilon in {0,5e-324,1e-320,1e-310,MIN_POSITIVE,1e-300,1e-16,4.5e-16} x max_relative in {0,5e-324,1.2e-16,1.6e-16,2.1e-16,EPSILON,4e-16,1e-15}"}),
+    };
     let mut extra = serde_json::Map::new();
     extra.insert("approx_types".into(), json!(names));
     Check {
         id: "C17",
         rule: "choice tree: type (unit) x perturbation per number x epsilon x max_relative; each leaf calls the real abs_diff_eq / relative_eq in both argument orders and ==; non-trivial = at least one number perturbed / special value / different lengths".into(),
         assumptions: vec!["approx's own f64 impls are the per-number reference".into()],
-        phases: vec![perturb, special, lengths, big, alias, boundary, special2],
+        phases: vec![perturb, special, lengths, big, alias, boundary, special2, tiny],
         extra,
         controls: vec![],
     }
